@@ -97,7 +97,7 @@ def mutate(o, a, v):
         x.add(77)
 
 
-def make_h(fam, cname, nops, fop=None):
+def make_h(fam, cname, nops, fop=None, fop2=None):
     cls = FAM[fam][cname]
 
     def h(arg: bool, aa: int, v: int, op1: int, a1: int, op2: int, a2: int, op3: int, a3: int) -> str:
@@ -115,6 +115,8 @@ def make_h(fam, cname, nops, fop=None):
         defaults = class_defaults(cls)
         if fop is not None:
             assume(op1 == fop)
+        if fop2 is not None:
+            assume(op2 == fop2)
         for op, ai in [(op1, a1), (op2, a2), (op3, a3)][:nops]:
             assume(0 <= op <= 6)
             a = pick(ATTRS[1:], ai)  # nd0 stays unset throughout
@@ -237,8 +239,13 @@ def _warm(nops):
 
 def obligations(tier):
     obs = []
-    nops = 2 if tier == "quick" else 3
+    nops = 2
     T = 300 if tier == "quick" else 1800
+    if tier == "thorough":
+        # histories of 3 operations, sharded by the kinds of the first TWO operations (one shard per first-operation kind
+        # ran past 30 minutes; 98 two-operation shards for D and PD past 75 minutes on 10 cores); class D, eager family
+        for cname, fop, fop2 in [(c, f, g) for c in ("D",) for f in range(7) for g in range(7)]:
+            obs.append(Ob(f"C08.eager.{cname}.h3.first-op{fop}.second-op{fop2}", make_h("eager", cname, 3, fop, fop2), [w for w in _warm(3) if w[3] == fop and w[5] == fop2] or [w for w in _warm(3) if w[3] == fop][:6], f"class {cname} (eager): history of 3 operations (kinds of the first two fixed per shard: {fop}, {fop2}; their attributes and the third operation symbolic) over 7 operation kinds x 6 attributes; constructor argument given or not (symbolic)", expect=set(), timeout=T, group=f"C08.eager.{cname}.h3"))
     for fam in ("eager",) if tier == "quick" else ("eager", "lazy"):
         for cname, fop in [(c, f) for c in ("D", "SD", "PD") for f in range(7)]:
             obs.append(Ob(f"C08.{fam}.{cname}.h{nops}.first-op{fop}", make_h(fam, cname, nops, fop), [w for w in _warm(nops) if w[3] == fop], f"class {cname} ({fam}): attributes declared with a mutable literal, Attr(default=), Attr(default_factory=), dataclasses.field(default_factory=) (dict and set), nested spec default, no default{'; overrides in a spec subclass' if cname == 'SD' else ''}{'; overrides in a plain subclass' if cname == 'PD' else ''}; constructor argument given or not (symbolic), history of {nops} operations (first operation kind fixed per shard: {fop}) with symbolic selectors over 7 operation kinds x 6 attributes", expect={"ok"}, timeout=T))
